@@ -39,6 +39,7 @@ use std::sync::Arc;
 
 use solstat::analyzer::optimizations as opt;
 use solstat::analyzer::qa;
+use solstat::analyzer::utils::LineNumber; // whatever integer type the crate uses for line numbers
 use solstat::analyzer::vulnerabilities as vul;
 
 const OPT_NAMES: [&str; 23] = [
@@ -100,12 +101,12 @@ fn listing(root: &Path, rel: &Path, out: &mut Vec<String>) {
     }
 }
 
-type Found = Vec<(String, Vec<(String, BTreeSet<i32>)>)>;
+type Found = Vec<(String, Vec<(String, BTreeSet<LineNumber>)>)>;
 
 fn named<K: PartialEq + Copy>(
     names: &[&str],
     conv: &dyn Fn(&str) -> K,
-    map: HashMap<K, Vec<(String, BTreeSet<i32>)>>,
+    map: HashMap<K, Vec<(String, BTreeSet<LineNumber>)>>,
 ) -> Found
 where
     K: std::hash::Hash + Eq,
@@ -169,7 +170,7 @@ fn cmd_dir(w: &mut impl Write, root_hex: &str, cat: &str, names: &str) {
     writeln!(w, "end").unwrap();
 }
 
-fn analyze_one(cat: &str, name: &str, src: &str, file_no: usize) -> Result<BTreeSet<i32>, ()> {
+fn analyze_one(cat: &str, name: &str, src: &str, file_no: usize) -> Result<BTreeSet<LineNumber>, ()> {
     catch_unwind(AssertUnwindSafe(|| match cat {
         "opt" => opt::analyze_for_optimization(src, file_no, opt::str_to_optimization(name)),
         "vul" => vul::analyze_for_vulnerability(src, file_no, vul::str_to_vulnerability(name)),
@@ -199,7 +200,7 @@ fn regular_files(dir: &Path) -> Vec<PathBuf> {
     files
 }
 
-fn fmt_res(r: &Result<BTreeSet<i32>, ()>) -> String {
+fn fmt_res(r: &Result<BTreeSet<LineNumber>, ()>) -> String {
     match r {
         Err(()) => "PANIC".into(),
         Ok(set) => {
@@ -244,7 +245,7 @@ fn cmd_threads(w: &mut impl Write, dir_hex: &str, nthreads: usize, reps: usize) 
             }
         }
     }
-    let seq: Vec<Result<BTreeSet<i32>, ()>> = work.iter().map(|(_, s, c, p)| analyze_one(c, p, s, 0)).collect();
+    let seq: Vec<Result<BTreeSet<LineNumber>, ()>> = work.iter().map(|(_, s, c, p)| analyze_one(c, p, s, 0)).collect();
     let work = Arc::new(work);
     let seq = Arc::new(seq);
     let mut handles = vec![];
